@@ -386,6 +386,18 @@ end
     none is white space (`parseDeclaration` drops it) -/
 def valsOk (vs : List Tok) : Bool := vs.all fun t => tokOk t && t.tt != .whitespace
 
+/-- the raw path writes the parser's components as they are (a function token is just its `name(` lexeme there):
+    every component admissible on its own, neighbours safe to write back to back -/
+def rawTokOk (t : Tok) : Bool := tokOk (.mk t.tt t.data [])
+
+def rawOk : List Tok → Bool
+  | [] => true
+  | [t] => rawTokOk t
+  | t :: u :: r => rawTokOk t && sepOk t u && rawOk (u :: r)
+
+/-- the tokens one component stands for on the raw path -/
+def rawFlat (t : Tok) : List Token := if t.tt == .url then urlToks t.data else [(t.tt, t.data)]
+
 mutual
 /-- `tokOk` without the condition on neighbours inside functions (`sepOk`): only "every lexeme is a token of its
     type" — the hypothesis of the full statement that is false (`css_writer_retokenises_counterexample`) -/
